@@ -807,7 +807,9 @@ class Checker:
     # ---- calls
     SAME = {"np.abs", "abs", "np.fabs", "np.sort", "np.unique", "np.copy", "np.ascontiguousarray", "np.asarray",
             "np.array", "float", "np.float64", "np.negative", "np.flip", "np.ravel", "np.squeeze", "np.atleast_1d",
-            "np.nan_to_num", "np.real", "np.round", "np.floor", "np.ceil", "np.trunc", "np.float32"}
+            "np.nan_to_num", "np.real", "np.float32", "list", "tuple"}
+    ROUNDING = {"np.round", "np.around", "round", "np.floor", "np.ceil", "np.trunc", "np.rint", "math.floor",
+                "math.ceil", "np.fix"}
     REDUCE = {"np.sum", "np.max", "np.min", "np.mean", "np.median", "np.amax", "np.amin", "np.nanmax", "np.nanmin",
               "np.nansum", "np.nanmean", "max1", "min1", "np.cumsum", "np.diff", "np.ptp"}
     NARY_EQ = {"np.maximum", "np.minimum", "max", "min", "np.fmax", "np.fmin", "np.append", "np.nextafter",
@@ -848,6 +850,13 @@ class Checker:
             if isinstance(v, Lst):
                 return self.strip(self.num(v.elem, e)) if not isinstance(v.elem, Poly) else Poly()
             return self.strip(v)
+        if f in self.ROUNDING:
+            # rounding to a fixed number of decimals / to integers is tied to the unit: only pure numbers
+            v = self.num(self.expr(args[0]), e)
+            self.dimless(v, short, e)
+            for a in list(args[1:]) + list(kw.values()):
+                self.dimless(self.expr(a), "index", a)
+            return N(self.zero(), self.zero(), None, v.rank)
         if f in self.REDUCE:
             v = self.num(self.expr(args[0]), e)
             if short in ("sum", "cumsum", "nansum"):
@@ -938,7 +947,8 @@ class Checker:
             if f in ("np.repeat", "np.tile"):
                 self.dimless(self.expr(args[1]), "index", args[1])
                 return self.strip(v)
-            if isinstance(v, N) and v.lit is None and _is_poly_literal(args[1]):
+            if isinstance(v, N) and v.lit is None and _is_poly_literal(args[1]) and \
+                    not (isinstance(args[1], ast.Constant) and isinstance(args[1].value, bool)):
                 return Poly()
             return self.strip(v)
         if f in ("np.where",):
@@ -1000,6 +1010,12 @@ class Checker:
 
     def method(self, e, recv, attr, args, kw):
         base = self.expr(recv)
+        if isinstance(base, Obj):
+            if attr + "()" not in base.fields:
+                raise DimUnsupported(f"method .{attr}() at line {e.lineno} has no dimension in the contract")
+            for a in args:
+                self.expr(a)
+            return base.fields[attr + "()"]
         if attr == "append" and isinstance(base, Lst):
             v = self.expr(args[0])
             if isinstance(base.elem, Poly):
